@@ -468,16 +468,29 @@ namespace smt
         // these are the rows in which x_j appears..
         std::unordered_set<row *> x_j_watches;
         std::swap(x_j_watches, t_watches[x_j]);
+#if defined(ORATIO_VERIF) && defined(PARALLELIZE)
+        verif_pivot_info verif_info{x_i, x_j, expr, {}, {}, {}};
+        for (const auto &r : x_j_watches)
+            verif_info.before.emplace_back(r->x, r->l);
+#endif
         for (const auto &r : x_j_watches)
 #ifdef PARALLELIZE
             sat->get_thread_pool().enqueue([this, x_j, expr, r]
                                            {
+#ifdef ORATIO_VERIF
+                                               struct verif_task_end
+                                               {
+                                                   ~verif_task_end() { ORATIO_VERIF_SCHED(2); }
+                                               } verif_task_end_guard;
+#endif
+                                               ORATIO_VERIF_SCHED(0);
                                                rational cc = r->l.vars[x_j];
                                                r->l.vars.erase(x_j);
                                                for (const auto &[v, c] : std::map<const var, rational>(expr.vars))
                                                    if (const auto trm_it = r->l.vars.find(v); trm_it == r->l.vars.cend())
                                                    { // we are adding a new term to 'r'..
                                                        r->l.vars.emplace(v, c * cc);
+                                                       ORATIO_VERIF_SCHED(1);
                                                        std::lock_guard<std::mutex> lock(t_mtxs[v]);
                                                        t_watches[v].emplace(r);
                                                    }
@@ -488,6 +501,7 @@ namespace smt
                                                        if (trm_it->second == rational::ZERO)
                                                        { // the updated term's coefficient has become equal to zero, hence we can remove the term..
                                                            r->l.vars.erase(trm_it);
+                                                           ORATIO_VERIF_SCHED(1);
                                                            std::lock_guard<std::mutex> lock(t_mtxs[v]);
                                                            t_watches[v].erase(r);
                                                        }
@@ -495,6 +509,23 @@ namespace smt
                                                r->l.known_term += expr.known_term * cc; });
         // we wait for all the rows to be updated..
         sat->get_thread_pool().join();
+#ifdef ORATIO_VERIF
+        if (verif::get_hooks().on_pivot)
+        {
+            for (const auto &r : x_j_watches)
+                verif_info.after.emplace_back(r->x, r->l);
+            for (var v = 0; v < t_watches.size(); ++v)
+            {
+                std::vector<var> ws;
+                for (const auto &r : t_watches[v])
+                    if (x_j_watches.count(r))
+                        ws.push_back(r->x);
+                if (!ws.empty())
+                    verif_info.watching.emplace_back(v, std::move(ws));
+            }
+            verif::get_hooks().on_pivot(verif::get_hooks().ctx, &verif_info);
+        }
+#endif
 #else
         { // 'r' is a row in which 'x_j' appears..
             rational cc = r->l.vars[x_j];
